@@ -2,6 +2,7 @@ package rules
 
 import (
 	"fmt"
+	"strings"
 	"verif/tools/model"
 
 	"golang.org/x/tools/go/ssa"
@@ -27,6 +28,28 @@ func runC06(c *Ctx) {
 	R.Rule("C06.R4", "the tokenizer runs in its default configuration: the only methods invoked on the value returned by html.NewTokenizer are Next, Token, Err and Raw (AllowCDATA, SetMaxBuf, NextIsNotRawText … change which input bytes are delivered as text, so that the text of the output is no longer the text of the input)")
 	R.Rule("C06.R3", "nothing is written outside the token-type arms (between Tokenizer.Next and the switch, or after the loop)")
 	R.Assume(TrustGo, TrustTokenizer, TrustTokenString, "equality of the text an HTML tokenizer reads from input and output (decode/escape round trip, CR/LF/NUL normalisation, invalid UTF-8) is a property of x/net/html and is NOT decided")
+	R.Rule("C06.R11", "text is dropped only inside a region the skip rules opened (= C08.R2/R2c, cited): the skip flag and depth change only under the tabled conditions — a region opened for an element that is not in the skip set (a look-up in a sibling table) is never closed, and every later text token is lost")
+	{
+		sub := &Ctx{P: c.P, R: newScratchReport(), Tier: c.Tier, VerifDir: c.VerifDir}
+		runC08(sub)
+		n11 := 0
+		for _, o := range sub.R.Obls {
+			if o.Rule != "C08.R2" && o.Rule != "C08.R2c" {
+				continue
+			}
+			n11++
+			k := strings.Replace(o.Key, "|", ":", 1)
+			switch o.Status {
+			case "discharged":
+				R.OK("C06.R11", k, o.Construct, o.Pos, o.Reason)
+			case "undecided":
+				R.Unknown("C06.R11", k, o.Construct, o.Pos, o.Reason)
+			default:
+				R.Fail("C06.R11", k, o.Construct, o.Pos, o.Reason)
+			}
+		}
+		R.Role("C06.R11", "skip-state obligations of C08.R2", n11, 5)
+	}
 	R.Rule("C06.R10", "text is skipped only for the elements this policy names (= C08.R6, cited): the map installed in a policy's skip-content field is freshly made by the storing function — a default set shared by reference lets AllowElementsContent / SkipElementsContent on one policy change which text another policy drops")
 	if F10 := model.FindFields(c.P); F10 != nil {
 		skipField10 := F10.Get("skipSet")
